@@ -18,7 +18,7 @@ OpenNext ==
     \/ \E n \in Names, t \in Types, ds \in DimSeqs : DefVar(n, t, ds, DefVarRc(n, t, ds)) /\ Len(vars) < 3 /\ tk' = tk
     \/ \E t \in Targets, n \in Names \cup {"_FillValue"}, ty \in Types, vs \in AttVals :
           /\ Len(AttsOf(t)) < 3
-          /\ PutAtt(t, Att(n, ty, vs), PutAttRc(t, Att(n, ty, vs))) /\ tk' = tk
+          /\ \E rc \in PutAttRcs(t, Att(n, ty, vs)) : PutAtt(t, Att(n, ty, vs), rc) /\ tk' = tk
     \/ \E t \in Targets, n \in Names : DelAtt(t, n, DelAttRc(t, n)) /\ tk' = tk
     \/ \E t \in Targets, o \in Names, n \in Names :
           RenameAtt(t, o, n, NLen(o), NLen(n), RenameAttRc(t, o, n, NLen(o), NLen(n))) /\ tk' = tk
@@ -26,7 +26,7 @@ OpenNext ==
           RenameVar(v, n, NLen(vars[v + 1].name), NLen(n), RenameVarRc(v, n, NLen(vars[v + 1].name), NLen(n))) /\ tk' = tk
     \/ \E d \in 0..(Len(dims) - 1), n \in Names :
           RenameDim(d, n, NLen(dims[d + 1].name), NLen(n), RenameDimRc(d, n, NLen(dims[d + 1].name), NLen(n))) /\ tk' = tk
-    \/ \E t1 \in Targets, t2 \in Targets, n \in Names : \E rc \in {"NC_NOERR", "NC_ENOTATT", "NC_ENOTINDEFINE", "NC_EBADTYPE", "NC_ELATEFILL", "NC_EINVAL", "NC_EGLOBAL"} :
+    \/ \E t1 \in Targets, t2 \in Targets, n \in Names : \E rc \in {"NC_NOERR", "NC_ENOTATT", "NC_ENOTINDEFINE", "NC_EBADTYPE", "NC_ESTRICTCDF2", "NC_ELATEFILL", "NC_EINVAL", "NC_ENOTVAR"} :
           CopyAtt(t1, n, t2, rc) /\ tk' = tk
     \/ \E m \in {"FILL", "NOFILL"} : \E rc \in {"NC_NOERR", "NC_ENOTINDEFINE"} : SetFill(m, rc) /\ tk' = tk
     \/ \E v \in 0..(Len(vars) - 1), nf \in BOOLEAN : \E rc \in {"NC_NOERR", "NC_ENOTINDEFINE"} : DefVarFill(v, nf, rc) /\ tk' = tk
